@@ -103,7 +103,9 @@ def report(ctx, log_lines, verdicts, rows_by_src):
         bad += 1
         if bad > 8:
             continue
-        what = "eviction (%s, %d candidates) chose peer %s: %s" % (case["src"], len(case["cands"]), v["bad"], v["why"])
+        how = sorted(set(l for c, l in zip(case["choices"], case.get("labels", [])) if c == v["bad"]))
+        what = "eviction (%s, %d candidates, value mapping/order %s) chose peer %s: %s" % (
+            case["src"], len(case["cands"]), ",".join(how[:6]) or "?", v["bad"], v["why"])
         ctx.violation(key, what, dict(adapter="eviction", mode="connman" if case["src"].startswith("connman") else "select",
                                       case=dict(cands=case["cands"]), logged=case, verdict=v))
     return bad
@@ -179,11 +181,30 @@ def run(ctx):
                 per["target_unprotected:" + crit] += 1
                 if g["target"] in ch:
                     per["target_evicted_when_unprotected:" + crit] += 1
+    # scenarios of the shape "target on the last protected slot of a criterion, its nearest competitor one rank value worse and connected
+    # longer, nothing else protecting the target", which the finest-resolution value mappings turn into sub-unit differences
+    for x in rows:
+        pr = x["par"]
+        if pr["da"] == 1 and pr["tied"] == 0 and pr["nfill"] >= 20 and x["protected"]:
+            t = next(c for c in x["cands"] if c["id"] == x["target"])
+            key = dict(grp="grp", ping="ping", tx="tx", blk="blk")[pr["crit"]]
+            worse = t[key] + 1 if key == "ping" else t[key] - 1
+            if any(c[key] == worse and c["conn"] < t["conn"] and c["ctype"] == "inbound" and not c["noban"] for c in x["cands"]):
+                per["last_slot_with_adjacent_older_competitor:" + pr["crit"]] += 1
     ctx.evaluations = per["decisions"]
     ctx.traces = len(log_lines)
     ctx.extra["counts"] = dict(per)
     ctx.extra["verdicts_not_ok"] = n_bad
     ctx.extra["harness_counters"] = {k: int(v) for k, v in summ.items() if k in ("tests", "steps", "evictions", "none")}
+    ctx.extra["harness_counters"]["random_cases"] = len(rnd)
+    mapping_counts = {k: int(v) for k, v in summ.items() if k.startswith("decisions_")}
+    ctx.extra["decisions_per_value_mapping"] = mapping_counts
+    for mname in ("decisions_coarse", "decisions_finest", "decisions_sub_us", "decisions_wide", "decisions_finest_s"):
+        if not mapping_counts.get(mname):
+            raise vflib.InfraError("vacuity: no decision taken under value mapping " + mname)
+    for c in ("grp", "ping", "tx", "blk"):
+        if not per["last_slot_with_adjacent_older_competitor:" + c]:
+            raise vflib.InfraError("vacuity: no case with the target on the last protected %s slot and an adjacent, longer-connected competitor" % c)
     if not per["decisions_evicting"]:
         raise vflib.InfraError("vacuity: the implementation never evicted anybody")
     if not sum(v for k, v in per.items() if k.startswith("target_evicted_when_unprotected:")):
